@@ -238,8 +238,6 @@ class OffsetOperandStub:
                         return Symbol(token.ctx_start, token.ctx_end, token.representation, is_necessarily_label=True)
                 elif isinstance(token, (Symbol, InstructionPointer)):
                     fixup_active = False
-                else:
-                    assert False  # TODO: really?
                 return token
             fixup_label(operand)
 
